@@ -22,7 +22,9 @@ static void round_ev(const uint8_t* s, const uint8_t* k) {
 	}
 }
 
-struct Buf { uint8_t* p; size_t n; Buf(size_t n_) : n(n_) { p = (uint8_t*)aligned_alloc(64, n ? n : 64); } ~Buf() { free(p); } };
+// output buffers are followed by 128 canary bytes: a routine asked for n bytes must not write more
+struct Buf { uint8_t* p; size_t n; Buf(size_t n_) : n(n_) { p = (uint8_t*)aligned_alloc(64, ((n + 63) & ~(size_t)63) + 128); memset(p + n, 0xC5, 128); } ~Buf() { free(p); }
+	bool intact() const { for (size_t i = 0; i < 128; ++i) if (p[n + i] != 0xC5) return false; return true; } };
 
 static void fill_ev(Rng& rng, bool four, size_t nblocks) {
 	alignas(16) uint8_t st[64], s1[64], s2[64];
@@ -31,7 +33,7 @@ static void fill_ev(Rng& rng, bool four, size_t nblocks) {
 	if (four) { fillAes4Rx4<true>(s1, 64 * nblocks, o1.p); fillAes4Rx4<false>(s2, 64 * nblocks, o2.p); }
 	else { fillAes1Rx4<true>(s1, 64 * nblocks, o1.p); fillAes1Rx4<false>(s2, 64 * nblocks, o2.p); }
 	Line l; l.str("e", four ? "fill4" : "fill1").num("n", (long long)nblocks).limbs("state", st, 64)
-		.limbs("soft_out", o1.p, 64 * nblocks).limbs("hard_out", o2.p, 64 * nblocks).limbs("soft_state", s1, 64).limbs("hard_state", s2, 64);
+		.limbs("soft_out", o1.p, 64 * nblocks).limbs("hard_out", o2.p, 64 * nblocks).limbs("soft_state", s1, 64).limbs("hard_state", s2, 64).boolean("guard", o1.intact() && o2.intact());
 	l.emit(out);
 }
 
@@ -52,7 +54,7 @@ static void hashfill_ev(Rng& rng, size_t nblocks) {
 	hashAndFillAes1Rx4<true>(a.p, a.n, h1, f1); hashAndFillAes1Rx4<false>(b.p, b.n, h2, f2);
 	Line l; l.str("e", "hashfill").limbs("sp", sp.p, sp.n).limbs("fill", fill, 64)
 		.limbs("soft_hash", h1, 64).limbs("hard_hash", h2, 64).limbs("soft_sp", a.p, a.n).limbs("hard_sp", b.p, b.n)
-		.limbs("soft_fill", f1, 64).limbs("hard_fill", f2, 64);
+		.limbs("soft_fill", f1, 64).limbs("hard_fill", f2, 64).boolean("guard", a.intact() && b.intact());
 	l.emit(out);
 }
 
@@ -100,6 +102,10 @@ int main(int argc, char** argv) {
 	out = fopen(arg(argc, argv, "--out", "/dev/stdout"), "w");
 	if (!out) return 2;
 	Rng rng(seed);
+	// --first combined: the combined hash-and-fill step is the FIRST AES routine this process runs (nothing else has been called that
+	// could have prepared state for it)
+	if (!strcmp(arg(argc, argv, "--first", ""), "combined")) { hashfill_ev(rng, 2); hashfill_ev(rng, 1); hashfill_ev(rng, 5); fill_ev(rng, true, 1); fclose(out); return 0; }
+	if (!strcmp(arg(argc, argv, "--first", ""), "fill4")) { fill_ev(rng, true, 2); hash_ev(rng, 2, 0); fclose(out); return 0; }
 
 	// T-tables
 	for (int dec = 0; dec < 2; ++dec) for (int i = 0; i < 4; ++i) {
@@ -118,7 +124,7 @@ int main(int argc, char** argv) {
 	// generators and hash, small sizes: complete recomputation by the specification
 	for (size_t n = 1; n <= 8; ++n) { fill_ev(rng, false, n); fill_ev(rng, true, n); hash_ev(rng, n, 0); hashfill_ev(rng, n); }
 	fill_ev(rng, true, 50);            // 3200 bytes: exactly the program buffer size
-	fill_ev(rng, false, 0); hash_ev(rng, 0, 0);
+	fill_ev(rng, false, 0); fill_ev(rng, true, 0); hash_ev(rng, 0, 0);       // nothing requested: nothing written
 	hash_ev(rng, 3, 1); hash_ev(rng, 3, 2);
 	for (int i = 0; i < (thorough ? 40 : 6); ++i) { size_t n = 1 + rng.below(thorough ? 64 : 24); fill_ev(rng, false, n); fill_ev(rng, true, n); hash_ev(rng, n, 0); hashfill_ev(rng, n); }
 	// full sizes: soft == hard, local chain links, combined == separate
